@@ -74,6 +74,7 @@ fn run_inner(case: &str, args: &Value) -> Option<Outcome> {
         "c13_lex" => Some(c13::lex(args)),
         "c12_parse" => Some(c12::parse(args)),
         "c12_multipart" => Some(c12::multipart(args)),
+        "c12_ws" => Some(c12::ws(args)),
         "c15_quoted" => Some(strings::quoted(args)),
         "c15_values" => Some(strings::value_roundtrip(args)),
         "c17_escape" => Some(strings::escape(args)),
@@ -127,6 +128,7 @@ fn generator(case: &str, seed: u64, open: &[String]) -> Option<Box<dyn Iterator<
         "c13_lex" => Box::new(c13::inputs(seed, open)),
         "c12_parse" => Box::new(c12::parse_inputs(seed)),
         "c12_multipart" => Box::new(c12::multipart_inputs(seed)),
+        "c12_ws" => Box::new(c12::ws_inputs(seed)),
         "c15_quoted" | "c17_escape" => Box::new(strings::string_inputs(seed)),
         "c15_values" => Box::new(strings::value_inputs(seed, open)),
         "c17_input_value" | "c17_sdl" => Box::new(c17_sdl::inputs(seed, open)),
